@@ -12,11 +12,17 @@ import (
 func decodeCustomSection(r *bytes.Reader, name string, limit uint64) (result *wasm.CustomSection, err error) {
 	// The declared size is untrusted: never allocate more than the input still holds. A short read
 	// is reported by the caller's section-length check, exactly as before.
+	declared := limit
 	if remaining := uint64(r.Len()); limit > remaining {
 		limit = remaining
 	}
 	buf := make([]byte, limit)
-	_, err = r.Read(buf)
+	// An empty payload is valid and there is nothing to read: bytes.Reader.Read reports io.EOF at the
+	// end of the input even for an empty buffer, which made a module ending in an empty custom section
+	// fail to decode (only when custom sections or DWARF are kept).
+	if declared > 0 {
+		_, err = r.Read(buf)
+	}
 
 	result = &wasm.CustomSection{
 		Name: name,
